@@ -359,7 +359,11 @@ class Negative(Term):
         return self.term.is_aggregate
 
     def get_sql(self, ctx: SqlContext) -> str:
-        return "-{term}".format(term=self.term.get_sql(ctx))
+        term_sql = self.term.get_sql(ctx)
+        if isinstance(self.term, ArithmeticExpression) or term_sql.startswith("-"):
+            # -(a+b) must not become -a+b, and -(-a) must not become the comment opener --a
+            term_sql = "({})".format(term_sql)
+        return "-{term}".format(term=term_sql)
 
 
 class ValueWrapper(Term):
